@@ -23,6 +23,7 @@ package main
 
 import (
 	"bufio"
+	"context"
 	"encoding/binary"
 	"encoding/hex"
 	"encoding/json"
@@ -288,9 +289,11 @@ func runRestartChild(job procJob) (*procResult, error) {
 	if err != nil {
 		return nil, err
 	}
-	cmd := exec.Command(exe, "restart-child")
-	// a restarted node finds another process environment: none of it is in the database
-	cmd.Env = append(os.Environ(), "TZ=Pacific/Kiritimati", "LANG=tr_TR.UTF-8", "LC_ALL=tr_TR.UTF-8")
+	// the same binary, the same environment, the same node configuration: only the process is new.  The time limit is a
+	// guard against a child that hangs (the whole driver would hang with it); a child that is killed is reported.
+	ctx, cancel := context.WithTimeout(context.Background(), 20*time.Minute)
+	defer cancel()
+	cmd := exec.CommandContext(ctx, exe, "restart-child")
 	in, err := json.Marshal(job)
 	if err != nil {
 		return nil, err
